@@ -474,6 +474,12 @@ func (e *Engine) verify(key string, c *Contract) *Unit {
 				u.reject("contract error: %v", err)
 				continue
 			}
+			// vacuity of the clause itself: for  A ==> B  some return must be able to satisfy A (aggregated over returns)
+			if n := parseSx(t); os.Getenv("GOCV_PREMISE_COVERS") != "" && n != nil && len(n.kids) == 3 && n.kids[0].kids == nil && n.kids[0].atom == "=>" {
+				cs := r.st.fork()
+				cs.assume(n.kids[1].String())
+				u.cover(cs, fmt.Sprintf("premise:%d", i+1), fd.Pos())
+			}
 			// split  A ==> (B && C)  into one obligation per conjunct: finer names, smaller queries
 			parts := splitGoal(t)
 			for pi, pt := range parts {
